@@ -31,9 +31,23 @@ func cmpTok(a, b *Tok) int {
 	return 0
 }
 
+// cmpProbe is what the counting comparators report to.
+type cmpProbe struct {
+	n    int64
+	rec  bool
+	seen []*Tok // every argument of every comparator call while rec is set
+}
+
+func (p *cmpProbe) note(a, b *Tok) {
+	p.n++
+	if p.rec {
+		p.seen = append(p.seen, a, b)
+	}
+}
+
 type cfgT[V any] struct {
 	name    string
-	newSUT  func(ctr *int64) tk.SUT[*Tok, V]
+	newSUT  func(ctr *cmpProbe) tk.SUT[*Tok, V]
 	valOf   func(id int) V
 	valEq   func(a, b V) bool
 	isZeroV func(V) bool
@@ -43,9 +57,9 @@ type cfgT[V any] struct {
 func mapCmpCfg() cfgT[*Tok] {
 	return cfgT[*Tok]{
 		name: "Map[*Tok,*Tok]/NewMapCmp((a-b)*7)",
-		newSUT: func(ctr *int64) tk.SUT[*Tok, *Tok] {
+		newSUT: func(ctr *cmpProbe) tk.SUT[*Tok, *Tok] {
 			// arbitrary magnitudes, not just -1/0/+1: any three-way compare function is allowed
-			return tk.NewMapSUT(tree.NewMapCmp[*Tok, *Tok](func(a, b *Tok) int { *ctr++; return (a.ID - b.ID) * 7 }))
+			return tk.NewMapSUT(tree.NewMapCmp[*Tok, *Tok](func(a, b *Tok) int { ctr.note(a, b); return (a.ID - b.ID) * 7 }))
 		},
 		valOf:   func(id int) *Tok { return &Tok{ID: id} },
 		valEq:   func(a, b *Tok) bool { return a == b },
@@ -57,8 +71,8 @@ func mapCmpCfg() cfgT[*Tok] {
 func mapLessCfg() cfgT[*Tok] {
 	return cfgT[*Tok]{
 		name: "Map[*Tok,*Tok]/NewMap(less)",
-		newSUT: func(ctr *int64) tk.SUT[*Tok, *Tok] {
-			return tk.NewMapSUT(tree.NewMap[*Tok, *Tok](func(a, b *Tok) bool { *ctr++; return a.ID < b.ID }))
+		newSUT: func(ctr *cmpProbe) tk.SUT[*Tok, *Tok] {
+			return tk.NewMapSUT(tree.NewMap[*Tok, *Tok](func(a, b *Tok) bool { ctr.note(a, b); return a.ID < b.ID }))
 		},
 		valOf:   func(id int) *Tok { return &Tok{ID: id} },
 		valEq:   func(a, b *Tok) bool { return a == b },
@@ -70,8 +84,8 @@ func mapLessCfg() cfgT[*Tok] {
 func setCfg() cfgT[struct{}] {
 	return cfgT[struct{}]{
 		name: "Set[*Tok]/NewSet(less)",
-		newSUT: func(ctr *int64) tk.SUT[*Tok, struct{}] {
-			return tk.NewSetSUT(tree.NewSet[*Tok](func(a, b *Tok) bool { *ctr++; return a.ID < b.ID }))
+		newSUT: func(ctr *cmpProbe) tk.SUT[*Tok, struct{}] {
+			return tk.NewSetSUT(tree.NewSet[*Tok](func(a, b *Tok) bool { ctr.note(a, b); return a.ID < b.ID }))
 		},
 		valOf:   func(int) struct{} { return struct{}{} },
 		valEq:   func(a, b struct{}) bool { return true },
@@ -124,21 +138,25 @@ func main() {
 }
 
 type drv[V any] struct {
-	c      *vkit.Case
-	r      *vkit.Report
-	rnd    *vkit.Rand
-	cfg    cfgT[V]
-	sut    tk.SUT[*Tok, V]
-	model  *tk.Model[*Tok, V]
-	ctr    int64
-	valID  int
-	ops    []string
-	nops   int
-	failed bool
-	prev   *tk.WalkView[*Tok, V]
-	keys   []int // positions present (for choosing)
-	kidx   map[int]int
-	univ   int
+	c       *vkit.Case
+	r       *vkit.Report
+	rnd     *vkit.Rand
+	cfg     cfgT[V]
+	sut     tk.SUT[*Tok, V]
+	model   *tk.Model[*Tok, V]
+	ctr     cmpProbe
+	valID   int
+	ops     []string
+	nops    int
+	failed  bool
+	prev    *tk.WalkView[*Tok, V]
+	kn      map[int]any
+	probed  map[any]bool
+	inProbe bool
+	knFor   *tk.WalkView[*Tok, V]
+	keys    []int // positions present (for choosing)
+	kidx    map[int]int
+	univ    int
 }
 
 func (d *drv[V]) fail(sig, what string) {
@@ -241,6 +259,38 @@ func (d *drv[V]) judge(op string, j int) {
 		}
 	}
 	d.prev = w
+	// A node that has just become full is where a search costs the most: look up a key in each of
+	// its children's ranges right now (random lookups almost never find a full internal node).
+	if !d.inProbe {
+		for _, nd := range w.T.Nodes {
+			if nd.Revisited || nd.Leaf || nd.N != tk.SpecMaxKeys || d.probed[nd.Ptr] {
+				continue
+			}
+			if d.probed == nil {
+				d.probed = make(map[any]bool)
+			}
+			d.probed[nd.Ptr] = true
+			d.inProbe = true
+			d.r.Count("comparator", "full internal nodes probed", 1)
+			for c := 0; c <= nd.N && !d.failed; c++ {
+				ci, ok := w.Index[nd.Children[c]]
+				if !ok {
+					continue
+				}
+				child := w.T.Nodes[ci]
+				if child.N > 0 && child.Keys[0] != nil {
+					d.lookup(child.Keys[0].ID)
+				}
+				if child.N > 1 && child.Keys[child.N-1] != nil {
+					d.lookup(child.Keys[child.N-1].ID)
+				}
+			}
+			for sidx := 0; sidx < nd.N && !d.failed; sidx++ {
+				d.lookup(nd.Keys[sidx].ID)
+			}
+			d.inProbe = false
+		}
+	}
 }
 
 // deepScan decides "no longer referenced from the live structure" without knowing the structure:
@@ -398,9 +448,31 @@ func (d *drv[V]) lookup(j int) {
 	budget := int64(d.cfg.perCmp * tk.SpecMaxKeys * levels)
 	d.log("Lookup", j)
 	want, present := d.model.Get(k)
-	before := d.ctr
+	before := d.ctr.n
+	d.ctr.rec, d.ctr.seen = true, d.ctr.seen[:0]
 	got := d.sut.Contains(k)
-	used := d.ctr - before
+	d.ctr.rec = false
+	used := d.ctr.n - before
+	// Attribute every comparison to the node that stores the key it was made against: the
+	// statement bounds the comparisons PER LEVEL (15 keys per node), not only in total.
+	perNode := make(map[any]int)
+	keyNode := d.keyNodes()
+	for _, t := range d.ctr.seen {
+		if t != k {
+			if nd, ok := keyNode[t.ID]; ok {
+				perNode[nd]++
+			}
+		}
+	}
+	for nd, cnt := range perNode {
+		d.r.Max("comparator", fmt.Sprintf("max counted calls against one node's keys (x%d per comparison)", d.cfg.perCmp), cnt)
+		if cnt > d.cfg.perCmp*tk.SpecMaxKeys {
+			idx := d.prev.Index[nd]
+			d.fail("comparisons-per-level", fmt.Sprintf("%s: Contains(%d) made %d comparator calls against the keys of one node (depth %d, n=%d); at most %d key comparisons per level are allowed (%d counted calls)",
+				d.cfg.name, j, cnt, d.prev.T.Nodes[idx].Depth, d.prev.T.Nodes[idx].N, tk.SpecMaxKeys, d.cfg.perCmp*tk.SpecMaxKeys))
+			return
+		}
+	}
 	d.r.Eval(2)
 	d.r.Max("comparator", fmt.Sprintf("max counted calls per level (x%d per comparison)", d.cfg.perCmp), int((used+int64(levels)-1)/int64(levels)))
 	if got != present {
@@ -412,9 +484,9 @@ func (d *drv[V]) lookup(j int) {
 		return
 	}
 	if !d.sut.IsSet() {
-		before = d.ctr
+		before = d.ctr.n
 		v := d.sut.Get(k)
-		used = d.ctr - before
+		used = d.ctr.n - before
 		if !d.cfg.valEq(v, want) {
 			d.fail("get", fmt.Sprintf("%s: Get(%d) = %v, ideal map has %v", d.cfg.name, j, v, want))
 			return
@@ -423,6 +495,26 @@ func (d *drv[V]) lookup(j int) {
 			d.fail("comparisons", fmt.Sprintf("%s: Get(%d) on a tree of %d levels called the comparator %d times, bound %d", d.cfg.name, j, levels, used, budget))
 		}
 	}
+}
+
+// keyNodes maps key id -> identity of the node holding it in the latest walk (cached per walk).
+func (d *drv[V]) keyNodes() map[int]any {
+	if d.kn != nil && d.knFor == d.prev {
+		return d.kn
+	}
+	m := make(map[int]any, d.model.Len())
+	for _, nd := range d.prev.T.Nodes {
+		if nd.Revisited {
+			continue
+		}
+		for s := 0; s < nd.N && s < tk.SpecMaxKeys; s++ {
+			if nd.Keys[s] != nil {
+				m[nd.Keys[s].ID] = nd.Ptr
+			}
+		}
+	}
+	d.kn, d.knFor = m, d.prev
+	return m
 }
 
 func (d *drv[V]) lookups(n int) {
